@@ -342,7 +342,13 @@ func runC02(c *core.Ctx) {
 		if i%7 == 0 {
 			depth, blocks = 2, 3
 		}
-		d := sg.Document(r, depth, blocks, lines, st)
+		var d sg.Doc
+		if i%4 == 3 {
+			// tabs may also start inside the structural spaces that follow a container marker ("> " TAB "- a")
+			d = sg.DocumentTabsAnywhere(r, depth, blocks, lines, st)
+		} else {
+			d = sg.Document(r, depth, blocks, lines, st)
+		}
 		sp := specs[i%2]
 		c02Check(c, pool, sp, &c02Case{md: []byte(d.Markdown), want: d.HTML, kind: "generated"}, st)
 		if c.WantSample() && i%9000 == 4 {
